@@ -510,6 +510,8 @@ func isLoadOf(v ssa.Value, cell ssa.Value) bool {
 func c24(r *core.Run) {
 	w := r.W
 	c24KnownRemovals(r)
+	c24ProtectReplaced(r)
+	c24FullOnly(r)
 	funcs := w.PkgFuncs(kadPkg)
 	// W1 + F1
 	allowedAdd := map[string]bool{kadPkg + ".(*Kad).Outbound": true, kadPkg + ".(*Kad).onConnected": true}
